@@ -63,8 +63,9 @@ CLAIMED.update({
               "noise variance, compute-then-assign order and population-mean identity with the specification (MStepTrace.tla), "
               "checking that the records cover the space; the mixture model's rules are stated in specs/MixStep.tla (probabilities = mean "
               "responsibilities summing to one, responsibility-weighted cluster means, dispersions around the pre-step cluster mean, sample "
-              "dispersion in the memory-less phase; ProbsSumToOne, MeanIsConvex, TotalMean, EqualSplit, VarNonNegative) and all 9280 cases "
-              "are run through the model's own parameter declarations (MixStepTrace.tla); real fits incl. the mixture model and a run without memory-less phase "
+              "dispersion in the memory-less phase; ProbsSumToOne, MeanIsConvex, TotalMean, EqualSplit, VarNonNegative) and all 14420 cases "
+              "(incl. an individual beyond the -100 floor of the responsibilities) are run through the model's own parameter declarations (MixStepTrace.tla); "
+              "dispersions below the documented bound 1e-5 must be refused with an untouched state (BelowBound); real fits incl. the mixture model and a run without memory-less phase "
               "(entries missing inside visits, a starved mixture cluster) are validated against SaemTrace.tla: BatchUpdate, burn-in flag, "
               "statistics identity and, at every iteration, the closed forms evaluated by the recorder on the statistics in force and "
               "the data mask (noise = RMS residual over observed entries, probabilities = mean responsibilities summing to one, cluster means and dispersions of the mixture model = the MixStep.tla rules); a variance that "
